@@ -1,0 +1,49 @@
+//go:build verif
+
+// Contracts for the verifier in /verif (comment-only file; compiled only with -tags verif).
+// Thin contract of (*UConn).clientHandshake (u_handshake_client.go): the glue between the hello the caller
+// built, the first record, version negotiation and the TLS 1.2 / 1.3 state machines.
+
+package tls
+
+// (*UConn).clientHandshake is a long chain of calls, most of them upstream functions without contract (loadSession,
+// readHandshake, the two handshake() state machines).  Only anchors are proved here: `unchecked safety pre` turns the
+// panic-freedom obligations and the preconditions of callees into listed assumptions, because after an
+// uncontracted call nothing is known about the heap.  The anchors speak about SSA values and about the local
+// variables of the function; `hello`, `c` and `err` are captured by the deferred closures, their cells are private
+// to the function (escape analysis of the generator) and keep their contents across the calls.
+//
+//   first_record (C01): the message handed to writeHandshakeRecord for the first flight is the private view of
+//       HandshakeState.Hello obtained at entry (getPrivatePtr: original == Raw, verif_contracts_public.go; marshal
+//       returns `original` when set; writeHandshakeRecord writes what marshal returns, verif_contracts_marshal.go).
+//   hs13_hello / hs12_hello (C01, C12): the state machines get that same hello object as hs.hello (what the
+//       server's choices are checked against) and the ServerHello that passed pickTLSVersion.
+//   nodowngrade (C13): the state machines are only entered when the RFC 8446 downgrade sentinel check passed:
+//       with TLS 1.3 as the configured maximum and a negotiated version <= 1.2 the ServerHello.random does not
+//       end in either sentinel; with TLS 1.2 as maximum and <= 1.1 negotiated not in the TLS 1.1 sentinel.
+//   version_picked (C13): pickTLSVersion (verified, verif_contracts_vers.go) accepted this ServerHello.
+//@ spec tail12(r) = string(r[24:]) == downgradeCanaryTLS12
+//@ spec tail11(r) = string(r[24:]) == downgradeCanaryTLS11
+//@ func (*UConn).clientHandshake
+//@   property C01 C12 C13
+//@   unchecked safety pre
+//@   note unchecked: thin contract, see the comment above; panic-freedom of this function and the preconditions of its callees are listed assumptions
+//@   requires c != nil && c.HandshakeState.Hello != nil
+//@   assume-pure NewEarlySecretFromSecret NewMasterSecretFromSecret New
+//@   note assume-pure: the tls13 secret constructors and hash constructors only allocate
+//@   at before call writeHandshakeRecord#0: assert first_record: istype(arg1, *clientHelloMsg) && arg1.(*clientHelloMsg) == callres(getPrivatePtr, 0)
+//@   at before call getPublicPtr#0: assert version_picked: called(pickTLSVersion, 0) && callres(pickTLSVersion, 0) == nil && arg0 == callarg(pickTLSVersion, 0, 1)
+//@   at before call getPublicPtr#0: assert nodowngrade13: callres(maxSupportedVersion, 0) == VersionTLS13 && c.vers <= VersionTLS12 ==> !tail12(arg0.random) && !tail11(arg0.random)
+//@   at before call getPublicPtr#0: assert nodowngrade12: callres(maxSupportedVersion, 0) == VersionTLS12 && c.vers <= VersionTLS11 ==> !tail11(arg0.random)
+//@   at before call handshake#0: assert hs12_hello: arg0.hello == callres(getPrivatePtr, 0) && arg0.serverHello == callarg(pickTLSVersion, 0, 1)
+//@   at before call handshake#1: assert hs13_hello: arg0.hello == callres(getPrivatePtr, 0) && arg0.serverHello == callarg(pickTLSVersion, 0, 1)
+//@   loop 0 invariant -1 <= $rangeindex
+
+// The deferred closure publishes the hello object the handshake used: afterwards HandshakeState.Hello.Raw is the
+// `original` of that object (C01: "Raw equals the last ClientHello actually sent" -- the HelloRetryRequest path
+// re-marshals into the same object, verif_contracts_hs13.go).
+//@ func (*UConn).clientHandshake$1
+//@   property C01
+//@   requires c != nil && hello != nil && (*c) != nil
+//@   modifies (*c).HandshakeState.Hello
+//@   ensures raw_is_sent: (*hello) != nil ==> (*c).HandshakeState.Hello != nil && (*c).HandshakeState.Hello.Raw == (*hello).original
